@@ -72,3 +72,16 @@ Theorem c02_future_lookup : forall z h cs,
 Proof. exact make_future_lemma. Qed.
 Print Assumptions c02_future_lookup.
 
+
+From CCTZ Require Import LoadCert.
+
+(* end to end: for EVERY accepted byte string whose data satisfies the side condition *)
+Theorem c02_every_accepted_file : forall bs z h cs, load_bytes bs = OK (Some z) ->
+  gaps_wide (zz_doff (abs_zone z)) (zz_tr (abs_zone z)) = true ->
+  valid_fields cs = true -> int64 (fy cs) ->
+  (z_extended z = false \/ fy cs <= z_last_year z) ->
+  exists h', let c := zmake (abs_zone z) (sec_of cs) in
+    make_time z h cs = OK (mkCL (kind_of' (zk c)) (clamp' (zpre c)) (clamp' (ztrans c)) (clamp' (zpost c)), h').
+Proof. exact accepted_make_refines_lemma. Qed.
+Print Assumptions c02_every_accepted_file.
+
